@@ -247,11 +247,17 @@ impl<M: GuestAddressSpace> VringState<M> {
 
     /// Read event from the kick `EventFd`.
     fn read_kick(&self) -> io::Result<bool> {
+        // Do not consume the event while the vring is disabled: the kick stays pending on the
+        // descriptor and gets delivered once the vring is enabled again.
+        if !self.enabled {
+            return Ok(false);
+        }
+
         if let Some(kick) = &self.kick {
             kick.consume()?;
         }
 
-        Ok(self.enabled)
+        Ok(true)
     }
 
     /// Set `EventFd` for call.
